@@ -24,21 +24,11 @@ open Obao Obao.RaftFSM
 
 def printable (k : List Nat) : Bool := k.all fun c => decide (33 ≤ c) && decide (c ≤ 126)
 
-def noDoubleSlash : List Nat → Bool
-  | a :: b :: r => !(a == slash && b == slash) && noDoubleSlash (b :: r)
-  | _ => true
+/-- list prefixes and `after` values: any printable bytes (the seek is the plain concatenation `prefix + after`,
+so slash-less prefixes, empty and dot segments are all modelled) -/
+def okPrefix (p : List Nat) : Bool := printable p
 
-def noDot (k : List Nat) : Bool := !k.contains 46
-
-/-- prefixes admitted: empty, or ending in `/`, without `.` and `//` (so that `filepath.Join` only concatenates) -/
-def okPrefix (p : List Nat) : Bool :=
-  printable p && (p == [] || (p.getLast? == some slash && noDot p && noDoubleSlash p))
-
-/-- `after` admitted: empty, or one segment without `.`, optionally followed by `/` -/
-def okAfter (a : List Nat) : Bool :=
-  printable a && (a == [] ||
-    (noDot a && (let seg := if a.getLast? == some slash then a.dropLast else a
-                 seg != [] && !seg.contains slash)))
+def okAfter (a : List Nat) : Bool := printable a
 
 def parseNat? (s : String) : Option Nat := s.toNat?
 
